@@ -201,46 +201,8 @@ func runC08(e *Env) error {
 			}
 		}
 	}
-	// (d'') `matches`: the answer is that of the regular expression with its own flags, whatever was matched before
-	// (regular expressions are outside the Lean model; the oracle is Go's regexp package)
-	{
-		subjects := []string{"abc", "ABC", "xabcx", "", "a1", "A-1"}
-		pats := []string{"/abc/", "/abc/i", "/^abc$/", "/^abc$/i", "/a.c/", "/[a-z]+/", "/[a-z]+/i", "/^$/", "/B/", "/B/i", "/b/", "/b/i"}
-		type mc struct{ subj, pat string }
-		var order []mc
-		for _, p := range pats {
-			for _, sj := range subjects {
-				order = append(order, mc{sj, p})
-			}
-		}
-		rev := make([]mc, len(order))
-		for i, x := range order {
-			rev[len(order)-1-i] = x
-		}
-		shuf := append([]mc{}, order...)
-		rg.Shuffle(len(shuf), func(i, j int) { shuf[i], shuf[j] = shuf[j], shuf[i] })
-		for pass, seq := range [][]mc{order, rev, shuf} {
-			for _, x := range seq {
-				body := x.pat[1:strings.LastIndex(x.pat, "/")]
-				flags := x.pat[strings.LastIndex(x.pat, "/")+1:]
-				goPat := strings.ReplaceAll(strings.ReplaceAll(body, "\\\\", "\\"), "\\d", "[0-9]")
-				if flags == "i" {
-					goPat = "(?i)" + goPat
-				}
-				want := fmt.Sprint(regexp.MustCompile(goPat).MatchString(x.subj))
-				src := "subj matches '" + x.pat + "'"
-				im := runImpl(exprCase(src, map[string]any{"subj": x.subj}))
-				r.Seen(fmt.Sprintf("matches:%d:%s:%s", pass, x.subj, x.pat), true)
-				r.Hit("matches")
-				if im.Class != "" || im.Out != want {
-					if r.Violate(Violation{Key: "matches-depends-on-history", What: fmt.Sprintf("%q matches '%s' gives %q (%s), Go's regexp says %s (pass %d: the same questions asked in another order)", x.subj, x.pat, im.Out, im.Class, want, pass),
-						Broken: "C08 operator semantics (implementation-only oracle against package regexp; regular expressions are not modelled)",
-						Replay: map[string]any{"kind": "expr", "src": src, "subj": x.subj, "got": im.Out, "want": want, "pass": pass}}) {
-						return nil
-					}
-				}
-			}
-		}
+	if matchesOracle(e, "C08 operator semantics (implementation-only oracle against package regexp; regular expressions are not modelled)") {
+		return nil
 	}
 	// (e) exact integer arithmetic
 	n = e.N(600, 30000)
@@ -323,6 +285,8 @@ func positions(e *Env, src string, ctx map[string]any, want string) error {
 		"macro-arg":      "{% macro id(q) %}{{ q }}{% endmacro %}{{ id(" + src + ") }}",
 		"cond-arm":       "{{ t ? " + src + " : 0 }}",
 		"parens":         "{{ ((" + src + ")) }}",
+		"print-large":    largeFiller + "{{ " + src + " }}",
+		"if-large":       largeFiller + "{% if true %}{{ " + src + " }}{% endif %}",
 	}
 	// default() replaces empty values, so that position is only comparable for non-empty results
 	for name, tpl := range forms {
@@ -336,6 +300,9 @@ func positions(e *Env, src string, ctx map[string]any, want string) error {
 		}
 		r.Seen("pos:"+name+":"+src, true)
 		r.Hit("position:" + name)
+		if strings.HasSuffix(name, "-large") {
+			im.Out = strings.TrimPrefix(im.Out, largeFiller)
+		}
 		if im.Class != "" || im.Out != want {
 			if r.Violate(Violation{Key: "position-changes-value", What: fmt.Sprintf("%s prints %q in a print tag but %q (%s) as %s", src, want, im.Out, im.Class, name),
 				Broken: "theorem C08_position no longer describes the code (implementation-only oracle)",
@@ -350,6 +317,9 @@ func positions(e *Env, src string, ctx map[string]any, want string) error {
 
 // rebindAll: `'k': 'REBOUND', ` for every context key — entries written BEFORE the entry under test; every
 // include variable is evaluated in the including template's scope, so they must not influence it
+// largeFiller lifts a template over the size at which the other tokenizer takes over
+var largeFiller = strings.Repeat("<li>filler</li>\n", 260)
+
 func rebindAll(ctx map[string]any) string {
 	var sb strings.Builder
 	for _, k := range sortedKeys(ctx) {
@@ -428,4 +398,50 @@ func c08Names(e *Env) {
 			}
 		}
 	}
+}
+
+// matchesOracle: see its first comment; shared by C08 and C01 (the pattern cache, if any, is process-wide state).
+func matchesOracle(e *Env, broken string) bool {
+	r := e.Rep
+	rg := e.Rng
+	// (d'') `matches`: the answer is that of the regular expression with its own flags, whatever was matched before
+	// (regular expressions are outside the Lean model; the oracle is Go's regexp package)
+	subjects := []string{"abc", "ABC", "xabcx", "", "a1", "A-1"}
+	pats := []string{"/abc/", "/abc/i", "/^abc$/", "/^abc$/i", "/a.c/", "/[a-z]+/", "/[a-z]+/i", "/^$/", "/B/", "/B/i", "/b/", "/b/i"}
+	type mc struct{ subj, pat string }
+	var order []mc
+	for _, p := range pats {
+		for _, sj := range subjects {
+			order = append(order, mc{sj, p})
+		}
+	}
+	rev := make([]mc, len(order))
+	for i, x := range order {
+		rev[len(order)-1-i] = x
+	}
+	shuf := append([]mc{}, order...)
+	rg.Shuffle(len(shuf), func(i, j int) { shuf[i], shuf[j] = shuf[j], shuf[i] })
+	for pass, seq := range [][]mc{order, rev, shuf} {
+		for _, x := range seq {
+			body := x.pat[1:strings.LastIndex(x.pat, "/")]
+			flags := x.pat[strings.LastIndex(x.pat, "/")+1:]
+			goPat := strings.ReplaceAll(strings.ReplaceAll(body, "\\\\", "\\"), "\\d", "[0-9]")
+			if flags == "i" {
+				goPat = "(?i)" + goPat
+			}
+			want := fmt.Sprint(regexp.MustCompile(goPat).MatchString(x.subj))
+			src := "subj matches '" + x.pat + "'"
+			im := runImpl(exprCase(src, map[string]any{"subj": x.subj}))
+			r.Seen(fmt.Sprintf("matches:%d:%s:%s", pass, x.subj, x.pat), true)
+			r.Hit("matches")
+			if im.Class != "" || im.Out != want {
+				if r.Violate(Violation{Key: "matches-depends-on-history", What: fmt.Sprintf("%q matches '%s' gives %q (%s), Go's regexp says %s (pass %d: the same questions asked in another order)", x.subj, x.pat, im.Out, im.Class, want, pass),
+					Broken: broken,
+					Replay: map[string]any{"kind": "expr", "src": src, "subj": x.subj, "got": im.Out, "want": want, "pass": pass}}) {
+					return true
+				}
+			}
+		}
+	}
+	return false
 }
